@@ -18,6 +18,8 @@ import (
 )
 
 type banner struct {
+	Text   string `json:"text"`   // if set: the first received line with this text is garbled (Line ignored)
+	used   bool
 	Line   int    `json:"line"`   // index of the received line whose echo is garbled
 	Form   string `json:"form"`   // bare | prompt_before | prompt_after
 	Offset int    `json:"offset"` // byte offset inside the echo (bare only)
@@ -68,9 +70,10 @@ var (
 	faulted       = false
 )
 
+// Output is collected and written in one piece before the simulator waits for input again,
+// so that everything a device prints in reaction to one line arrives together.
 func send(s string) {
 	out.WriteString(strings.ReplaceAll(s, "\n", "\r\n"))
-	out.Flush()
 }
 
 func emit(v any) {
@@ -79,6 +82,7 @@ func emit(v any) {
 }
 
 func finish() {
+	out.Flush()
 	emit(map[string]any{"end": true, "changes": changes, "saved": saved, "reload_pending": reloadPending,
 		"lines": nline})
 	logf.Close()
@@ -87,6 +91,7 @@ func finish() {
 
 // read one input line; returns its index
 func readLine() (string, int) {
+	out.Flush()
 	s, err := in.ReadString('\n')
 	if err != nil && s == "" {
 		finish()
@@ -110,6 +115,7 @@ func bannerText(kind string) string {
 
 func gate(i int) {
 	if sc.GateLine == i && sc.GateFile != "" {
+		out.Flush()
 		os.WriteFile(sc.GateFile+".reached", []byte("x"), 0644)
 		for {
 			if _, err := os.Stat(sc.GateFile + ".release"); err == nil {
@@ -122,8 +128,14 @@ func gate(i int) {
 
 // echo of a command line, possibly garbled by a reload banner
 func echo(i int, line string) {
-	for _, b := range sc.Banners {
-		if b.Line != i {
+	for k := range sc.Banners {
+		b := &sc.Banners[k]
+		if b.Text != "" {
+			if b.Text != line || b.used {
+				continue
+			}
+			b.used = true
+		} else if b.Line != i {
 			continue
 		}
 		bt := bannerText(b.Kind)
@@ -171,6 +183,7 @@ func fault(i int, line string, r *rec, secretInput bool) bool {
 			send(line + "\n")
 		}
 		// no prompt any more; wait until the tool gives up
+		out.Flush()
 		for {
 			if _, err := in.ReadString('\n'); err != nil {
 				finish()
